@@ -56,6 +56,12 @@ TERMINALS = {"AsAwkwardArray": "ResultAwkwardArray", "AsPandasDF": "ResultPandas
 PROBES = [
     ("helper_lam = lambda a: a * 2 + 5\n\nCAP = 3\n\ndef build(ds, L, A):\n    s1 = ds.Select(lambda e: helper_lam(e.met) + CAP)\n    return [s1]\n",
      False, "C01-helper-lambda-variable-not-inlined"),
+    # helper parameters spelled like the names its later arguments mention: the arguments are bound in parallel
+    ("def helper2(a, b): return a - b * 3\n\ndef ratio(x, y): return x * 10 - y\n\ndef build(ds, L, A):\n"
+     "    s1 = ds.Select(lambda a: helper2(2, a.met))\n    s2 = ds.Select(lambda x: ratio(7, x.run) + ratio(x.met, 1))\n"
+     "    s3 = s1.Select(lambda b: helper2(b + 1, b)).Where(lambda a: helper2(0, a) < 5)\n"
+     "    s4 = ds.Select(lambda e: e.jets.Select(lambda y: ratio(y.pt, e.met)).Count() + helper2(b=e.met, a=e.run))\n"
+     "    return [s1, s2, s3, s4]\n", False, None),
 ]
 
 
